@@ -489,3 +489,120 @@ Definition cstep_old (prog : nat -> option cop) (s : cstate) (t : nat) : option 
     on ForceFlush and on Shutdown. *)
 Definition mrun_old (readers : list rk) (ops : list mop) : outcome (list (mop * mobs)) :=
   if existsb nil_periodic readers then Crash else mrun readers ops.
+
+(** * Components used directly *)
+
+(** A stock span processor driven directly: the per-processor functions above, live contexts. *)
+Definition eff_obs (e : eff) : obs :=
+  let '(_, xs, w) := e in {| o_err := ENil; o_flag := false; o_calls := []; o_xcalls := xs; o_wrote := w |}.
+
+Definition dstep (k : pk) (st : pst) (o : dop) : pst * obs :=
+  let e := match o with
+           | DOnEnd => p_on_end k 0 st
+           | DFlush => p_flush k 0 st
+           | DShutdown => p_shutdown k 0 st
+           | DOnEndDrop | DFlushDead => (st, [], false)
+           end in
+  match o, k with
+  | DFlushDead, PBatch _ =>   (* batchSpanProcessor.ForceFlush: if err := ctx.Err(); err != nil { return err } *)
+      (st, {| o_err := ECtx; o_flag := false; o_calls := []; o_xcalls := []; o_wrote := false |})
+  | _, _ => (fst (fst e), eff_obs e)
+  end.
+
+Fixpoint drun (k : pk) (st : pst) (ops : list dop) : list (dop * obs) :=
+  match ops with
+  | [] => []
+  | o :: r => let '(st', ob) := dstep k st o in (o, ob) :: drun k st' r
+  end.
+
+(** One metric reader (manual_reader.go, periodic_reader.go) with the providers it was handed to
+    (provider.go, config.go unifyShutdown): [r_shut] = the reader's shutdownOnce has fired,
+    [r_once1/2] = the providers' unifyShutdown Once.  register() on a second provider is refused
+    (CompareAndSwap on sdkProducer fails, logged), yet the reader stays in that provider's list. *)
+Record rstate := { r_shut : bool; r_once1 : bool; r_once2 : bool }.
+
+Definition robs (e : err) (xs : list (nat * callk)) (w : bool) : obs :=
+  {| o_err := e; o_flag := false; o_calls := []; o_xcalls := xs; o_wrote := w |}.
+
+(** PeriodicReader.ForceFlush: the run loop collects and exports, then exporter.ForceFlush. *)
+Definition r_flush (r : rk) (reg : nat) (shut : bool) : obs :=
+  match r with
+  | RManual => robs ENil [] false
+  | RPeriodic x =>
+      if shut then robs EShut [] false
+      else if reg =? 0 then robs EOther [] false               (* ErrReaderNotRegistered from the collection *)
+      else if is_nil x then robs ENil [] false
+      else robs ENil [(0, KExport); (0, KXFlush)] (is_std x)
+  end.
+
+(** Reader.Shutdown under its shutdownOnce (first caller). *)
+Definition r_shutdown (r : rk) (reg : nat) : obs :=
+  match r with
+  | RManual => robs ENil [] false
+  | RPeriodic x =>
+      if is_nil x then robs ENil [] false
+      else robs ENil ((if reg =? 0 then [] else [(0, KExport)]) ++ [(0, KXShutdown)]) (negb (reg =? 0) && is_std x)
+  end.
+
+Definition rstep (r : rk) (reg : nat) (s : rstate) (o : rop) : rstate * obs :=
+  match o with
+  | ROCollect => (s, robs (if r_shut s then EShut else if reg =? 0 then EOther else ENil) [] false)
+  | ROCollectNil => (s, robs EOther [] false)       (* if rm == nil { return errors.New(...) } comes first *)
+  | ROFlush => (s, r_flush r reg (r_shut s))
+  | ROPFlush b => (s, if prov_exists reg b then r_flush r reg (r_shut s) else robs ENil [] false)
+  | ROShutdown =>
+      if r_shut s then (s, robs EShut [] false)
+      else ({| r_shut := true; r_once1 := r_once1 s; r_once2 := r_once2 s |}, r_shutdown r reg)
+  | ROPShutdown b =>
+      if negb (prov_exists reg b) then (s, robs ENil [] false) else
+      let s' := {| r_shut := true; r_once1 := if b then r_once1 s else true; r_once2 := if b then true else r_once2 s |} in
+      if (if b then r_once2 s else r_once1 s) then (s', robs EShut [] false)   (* unifyShutdown: second call *)
+      else if r_shut s then (s', robs EShut [] false)                        (* the reader's own Once has fired *)
+      else (s', r_shutdown r reg)
+  end.
+
+Fixpoint rrun (r : rk) (reg : nat) (s : rstate) (ops : list rop) : list (rop * obs) :=
+  match ops with
+  | [] => []
+  | o :: t => let '(s', ob) := rstep r reg s o in (o, ob) :: rrun r reg s' t
+  end.
+Definition rinit : rstate := {| r_shut := false; r_once1 := false; r_once2 := false |}.
+
+(** Processors that fail (TracerProvider.ForceFlush / Shutdown / UnregisterSpanProcessor loops). *)
+Fixpoint f_flush (fails : nat -> bool) (regs : list nat) : list (nat * callk) * err :=
+  match regs with
+  | [] => ([], ENil)
+  | p :: r => if fails p then ([(p, KFlush)], EOther)          (* if err != nil { return err } *)
+              else let '(cs, e) := f_flush fails r in ((p, KFlush) :: cs, e)
+  end.
+
+Fixpoint f_shutdown (fails : nat -> bool) (regs : list nat) : list (nat * callk) * bool :=
+  match regs with
+  | [] => ([], false)
+  | p :: r => let '(cs, e) := f_shutdown fails r in ((p, KShutdown) :: cs, fails p || e)
+  end.
+
+Definition fobs (e : err) (cs : list (nat * callk)) : obs :=
+  {| o_err := e; o_flag := false; o_calls := cs; o_xcalls := []; o_wrote := false |}.
+
+Definition fstep (fails : nat -> bool) (s : list nat * bool) (o : fop) : (list nat * bool) * obs :=
+  let '(regs, shut) := s in
+  match o with
+  | FReg p => (if shut then regs else regs ++ [p], shut, fobs ENil [])
+  | FUnreg p =>
+      if shut then (s, fobs ENil []) else
+      match last_index p (map (fun q => (q, false)) regs) with
+      | None => (s, fobs ENil [])
+      | Some i => (firstn i regs ++ skipn (S i) regs, shut, fobs ENil [(p, KShutdown)])
+      end
+  | FFlush => let '(cs, e) := f_flush fails regs in (s, fobs e cs)
+  | FShutdown =>
+      if shut then (s, fobs ENil []) else
+      let '(cs, e) := f_shutdown fails regs in ([], true, fobs (if e then EOther else ENil) cs)
+  end.
+
+Fixpoint frun (fails : nat -> bool) (s : list nat * bool) (ops : list fop) : list (fop * obs) :=
+  match ops with
+  | [] => []
+  | o :: r => let '(s', ob) := fstep fails s o in (o, ob) :: frun fails s' r
+  end.
